@@ -295,8 +295,8 @@ const (
 
 type Event struct {
 	Kind EvKind
-	Text string // full SMT command
-	Key  string // for decl / fun: the symbol (dedupe)
+	Text string // assumption body
+	Def  string // non-empty: this assumption defines the constant Def (sliced away when unused)
 	prev *Event
 	n    int
 }
@@ -318,8 +318,23 @@ func (c *Check) Script(timeoutMs int, forCvc5 bool) string {
 	for e := c.At; e != nil; e = e.prev {
 		evs = append(evs, e)
 	}
+	// definitional slicing: a definition is kept only when its constant is used
+	used := map[string]bool{}
+	if !c.Cover {
+		collectSymbols(c.Goal.S, used)
+	}
+	keep := make([]bool, len(evs))
+	for i, e := range evs { // evs is newest-first
+		if e.Def == "" || used[e.Def] {
+			keep[i] = true
+			collectSymbols(e.Text, used)
+		}
+	}
 	var body strings.Builder
 	for i := len(evs) - 1; i >= 0; i-- {
+		if !keep[i] {
+			continue
+		}
 		e := evs[i]
 		body.WriteString("(assert ")
 		body.WriteString(e.Text)
@@ -348,11 +363,7 @@ func (c *Check) Script(timeoutMs int, forCvc5 bool) string {
 
 func (c *Check) Hash() string {
 	h := sha256.New()
-	for e := c.At; e != nil; e = e.prev {
-		h.Write([]byte(e.Text))
-		h.Write([]byte{0})
-	}
-	h.Write([]byte(c.Goal.S))
+	h.Write([]byte(c.Script(0, false)))
 	if c.Cover {
 		h.Write([]byte("cover"))
 	}
